@@ -158,6 +158,7 @@ func genC04(t *rapid.T) C04Case {
 	fixEmptyLists(tree)
 	u := UniverseFor(t, tree, false)
 	applyWishes(u, wish)
+	caseTwins(t, tree, u)
 	// a variable that is not bound is not available (the fetcher reports availability truthfully)
 	var unboundNames []string
 	for _, v := range u.Vars {
